@@ -27,7 +27,7 @@ def shim_dir(ctx):
 def run(ctx, factor):
     g, rep = ctx.g, ctx.report
     rep.rule = ("ELF objects assembled from random code bytes with 1-3 executable sections (and the binaries under "
-                "/repo/tests/binary in the thorough tier) x sections lists (absent, one, several, a name not in the file): "
+                "/repo/tests/binary in the thorough tier; an object whose .text is empty and one without any code: objdump prints its banner only) x sections lists (absent, one, several, a name not in the file): "
                 "binary route on the real code vs assembly route on the harness's own `objdump -d -M att [-j s]*` output: "
                 "same stream, same verdict and addresses for a random rule, same error class when objdump fails; the "
                 "argument vector the real code passes to objdump (logged by a PATH shim) vs the model's objdumpArgs")
@@ -44,6 +44,16 @@ def run(ctx, factor):
             if nsec > 1 and g.chance(0.5):
                 secs[1] = (secs[1][0], list(secs[0][1]))      # two sections with identical code: identical lines
             objs.append((objfuzz.assemble(ctx.scratch, secs, name="o%d" % k), names))
+        # objects for which objdump legitimately prints its banner only (exit status 0, no `Disassembly of section`):
+        # code outside .text with `sections: [.text]` (gas always emits an empty .text), and an object without code
+        objs.append((objfuzz.assemble(ctx.scratch, [(".text.hot", objfuzz.random_bytes(g, 24)), ("mycode", objfuzz.random_bytes(g, 16))],
+                                      name="fsect"), [".text", ".text.hot", "mycode"]))
+        dpath = os.path.join(ctx.scratch.dir, "dataonly.S")
+        with open(dpath, "w") as fh:
+            fh.write(".data\n.byte 1,2,3,4\n.section .rodata\n.byte 9,9\n")
+        import subprocess
+        subprocess.run(["as", "-o", dpath[:-2] + ".o", dpath], check=True, capture_output=True)
+        objs.append((dpath[:-2] + ".o", [".text", ".data"]))
         if ctx.tier == "thorough":
             for f in sorted(glob.glob(os.path.join(impl.REPO, "tests", "binary", "*"))):
                 if os.path.getsize(f) < 50000:       # AesCore, md5sum, smc, smc_eko (the larger ones take minutes each)
